@@ -3,11 +3,54 @@ from vq.meta import _m
 _m(
     "C11",
     "exploration",
-    "placeholder",
-    [],
+    "Hypothesis draws operation histories (1..15 steps quick, 1..30 thorough; length drawn uniformly) over up to three live Vectors: "
+    "an initial creation (from_shape with 1, 2 or 3 fixed dimensions of size 1..4, or from_data with 1..5 cells given as arrays / "
+    "nested lists / mixed, incl. zero-row cells; 1..4 fields with default or given names, units given or defaulted, num_fields "
+    "passed / inferred) followed by steps drawn from: single-cell set/get through __setitem__/__getitem__ and set_data/get_data; "
+    "multi-cell assignment with a list of fresh arrays through v[...] = [...] (slices incl. open, negative and stepped bounds, "
+    "lists and ndarrays of length >= 2, outer product over several dimensions) and set_data (one multi-cell dimension, >= 2 cells); "
+    "retrieval through get_data and slicing to a new Vector (full or partial index tuples, bare or tuple index); "
+    "v[expr] = w[expr].copy() with a Vector right-hand side; field arithmetic v[f] op= scalar for + - * /; callable assignment; "
+    "set_flattened / v[f] = values (ndarray or list) and the flatten -> set_flattened round trip; add_fields / remove_fields "
+    "(str, list, tuple; existing, duplicate and missing names; all-but-one); copy (optionally preceded by a nested metadata write and "
+    "followed by an in-place mutation on one side); creation of further independent Vectors; metadata writes and in-place "
+    "appends.  About one assignment in five carries an array of illegal shape (k+1 or k-1 columns, 1-D, 3-D) and one "
+    "set_flattened in three a wrong length: these must raise ValueError.  Steps are abstract (slots, indices and field numbers are "
+    "small integers taken modulo the current number of live vectors / shape / field count), so every history is executable; after "
+    "EVERY step every live Vector is read back through its public API and compared with the reference model.  A history is "
+    "NON-TRIVIAL when at least one step executed and it either touches a Vector whose number of fixed dimensions is not 2, or "
+    "interleaves a successful add/remove of fields with a cell assignment and a slicing retrieval; distinct = SHA-1 of the "
+    "canonical JSON of the (abstract) case.",
+    [
+        "reference model (vq/refs/c11_vector_model.py) is pure Python (dict index-tuple -> list of rows | None, ordered fields / "
+        "units, deep-copied metadata); index sets come from Python's slice.indices/range; several non-integer indices combine as an "
+        "outer product, integers keep a length-1 axis in a sliced Vector, cells are enumerated in row-major order",
+        "all comparisons are exact: cell entries are half-integers in [-4, 4]; the model applies the same single IEEE-754 double "
+        "operations (+ - * / by a fixed list of scalars, x*2, -x+1, x*0.5-1) with Python floats; growth is bounded (factor <= 10 "
+        "per step) so no inf/NaN can arise; measured clean-tree difference 0 over > 2e4 histories",
+        "new columns from add_fields are zero-filled with unit 'none' (asserted by the repository's own unit tests)",
+        "values are always FRESH float64 arrays: assigning a retrieved cell object back (aliasing, double-applied field arithmetic) "
+        "and integer-dtype cells (in-place float arithmetic truncates) are outside the domain; sliced Vectors are documented views "
+        "and are only read",
+        "indices are non-negative integers (negative only inside slices), index sets are never empty, fancy lists used for assignment "
+        "have >= 2 entries, assignment index tuples have full rank; set_data with a list is only used with ONE multi-cell dimension "
+        "addressing >= 2 cells (with a one-cell slice set_data expects a bare array; with several multi-cell dimensions the "
+        "docstring does not fix the list layout)",
+        "a list assignment rejected because of one illegal array may leave the arrays BEFORE it stored (the statement promises the "
+        "invariants, not atomicity): both 'unchanged' and 'prefix stored' are accepted (counted as rejected-list-prefix-applied)",
+        "copy() must be independent of its source; whether it carries the source's metadata or starts empty is not fixed by the "
+        "statement (both accepted, counted); a newly created Vector must have empty metadata",
+        "a zero-row cell is only passed to from_data as an ndarray of shape (0, k) (an empty nested list cannot carry k); "
+        "a Vector right-hand side is only used when all its cells are populated",
+        "every case clears the metadata of its vectors at the end (public API) so that a tree with process-wide shared metadata "
+        "cannot leak state from one case into the next: reported cases are self-contained",
+    ],
     workers=(1, 16),
-    technique="model-based property testing",
-    text="",
-    note="",
+    technique="model-based property testing (Hypothesis-generated operation histories against a pure-Python list-of-rows reference "
+    "model; full read-back, per-field and whole flatten, and no-shared-state checks after every step)",
+    text="Generated histories against an independent reference model with a full comparison of every live Vector after every step; "
+    "the case Hypothesis settles on is further reduced by deterministic step deletion.  Exploration only: no absence claim.",
+    note="Trusts the reference model's reading of the docstrings (outer-product fancy indexing, integers keep a length-1 axis, "
+    "zero-filled new columns); aliasing histories, integer cells and 4+ fixed dimensions are outside the domain.",
     design="DESIGN.md §3 C11",
 )
